@@ -27,6 +27,7 @@ type Solver struct {
 	dead    bool
 	Errors  int
 	timeout int // ms
+	last    string
 }
 
 func solverArgs(name string, timeoutMs int) (string, []string, []string) {
@@ -72,9 +73,17 @@ func NewSolver(name string, timeoutMs int, logPath string) *Solver {
 	return s
 }
 
+var slowQ = func() time.Duration {
+	f, _ := strconv.ParseFloat(os.Getenv("SYMGO_SLOWQ"), 64)
+	return time.Duration(f * float64(time.Second))
+}()
+
 func (s *Solver) Send(l string) {
 	if s.dead {
 		return
+	}
+	if slowQ > 0 && !strings.HasPrefix(l, "(check-sat") {
+		s.last = l
 	}
 	if _, err := io.WriteString(s.in, l+"\n"); err != nil {
 		s.dead = true
@@ -134,7 +143,13 @@ func (s *Solver) Check() string {
 	t0 := time.Now()
 	s.Send("(check-sat)")
 	s.Queries++
-	defer func() { s.Dur += time.Since(t0) }()
+	defer func() {
+		d := time.Since(t0)
+		s.Dur += d
+		if slowQ > 0 && d > slowQ {
+			fmt.Fprintf(os.Stderr, "slow query %.2fs after: %.300s\n", d.Seconds(), s.last)
+		}
+	}()
 	sawError := false
 	for {
 		line, ok := s.readLine(s.limit())
